@@ -88,6 +88,17 @@ func NewSession(user []*ref.Fun) *Session {
 	return s
 }
 
+// Register adds further harness functions to a live session (registration
+// between two compilations).
+func (s *Session) Register(fs ...*ref.Fun) {
+	for _, f := range fs {
+		v := s.hostFun(f)
+		s.UserVals = append(s.UserVals, v)
+		s.TEnv.RegisterFun(v.Type)
+		s.VEnv.RegisterFun(v)
+	}
+}
+
 // hostFun wraps a harness function for the real engine: it converts the
 // arguments, records the call in the observed trace and runs the same Go
 // body the reference uses.
